@@ -39,41 +39,64 @@ Definition pend (stack : list frame) : nat :=
   list_sum (map (fun f => subs (tl (f_rest f))) stack).
 
 (* the command of a proxy whose strings are [strs]: spec side *)
-Definition fin_spec (strs : list str) : list entry * sres :=
+Definition fin_spec (child : bool) (strs : list str) : list entry * sres :=
   match strs with
   | [] => ([], k_on_empty K)
-  | _ => (match fr_call (final strs) with Some e => [e] | None => [] end, fr_res (final strs))
+  | _ => (match fr_call (final strs) with Some e => [e] | None => [] end, res_of child (final strs))
   end.
 
-Lemma finish_inr d sub lg strs :
+Lemma fin_spec_calls c1 c2 strs : fst (fin_spec c1 strs) = fst (fin_spec c2 strs).
+Proof. destruct strs; reflexivity. Qed.
+
+Lemma finish_inr child d sub lg strs :
   too_deep K d = false -> sub <> [] ->
-  finish d sub (lg, inr strs) = (lg ++ fst (fin_spec strs), snd (fin_spec strs)).
+  finish child d sub (lg, inr strs) = (lg ++ fst (fin_spec child strs), snd (fin_spec child strs)).
 Proof.
   intros Hd Hs. unfold finish. rewrite Hd. destruct sub as [|a sub]; [congruence|].
   destruct strs as [|s strs]; simpl; [rewrite app_nil_r|]; reflexivity.
 Qed.
 
-Lemma finish_inl d sub lg o :
-  too_deep K d = false -> sub <> [] -> finish d sub (lg, inl o) = (lg, SStop o).
+Lemma finish_inl child d sub lg o :
+  too_deep K d = false -> sub <> [] -> finish child d sub (lg, inl o) = (lg, SStop o).
 Proof.
   intros Hd Hs. unfold finish. rewrite Hd. destruct sub; [congruence|reflexivity].
 Qed.
 
-Lemma final_eval_spec strs stack log thr room :
+(* finalEval of a proxy that has a parent, entered with the tag clear: what the parent sees is res_of true *)
+Lemma final_eval_spec strs p stack log thr room :
   room <= k_budget K ->
   exists log' thr' room',
-    final_eval strs stack log thr room = apply_res (snd (fin_spec strs)) stack log' thr' room' /\
-    erase log' = erase log ++ fst (fin_spec strs) /\
+    final_eval strs (p :: stack) log thr room false =
+      apply_res (snd (fin_spec true strs)) (p :: stack) log' thr' room' false /\
+    erase log' = erase log ++ fst (fin_spec true strs) /\
     room <= room' /\ room' <= k_budget K.
 Proof.
   intro Hr. unfold final_eval, fin_spec. destruct strs as [|s strs].
   - exists log, thr, room. simpl. rewrite app_nil_r. auto.
   - set (fr := final (s :: strs)).
-    eexists _, _, _. split; [reflexivity|]. split.
-    + destruct (fr_call fr) as [[[p c] a]|]; simpl.
+    eexists _, _, _. split; [|split].
+    + unfold res_of. cbn [snd orb andb]. destruct (fr_res fr) as [[v|]|o]; cbn [apply_res deliver]; try reflexivity;
+        destruct (fr_tag fr); reflexivity.
+    + destruct (fr_call fr) as [[[pl c] a]|]; simpl.
       * rewrite erase_app. reflexivity.
       * rewrite app_nil_r. reflexivity.
     + destruct (negb thr && fr_threaded fr); lia.
+Qed.
+
+(* finalEval of the root proxy: the reply goes to the real Irc whatever the tag *)
+Lemma final_eval_root strs log thr room ign :
+  exists log' thr' room' ign',
+    final_eval strs [] log thr room ign = apply_res (snd (fin_spec false strs)) [] log' thr' room' ign' /\
+    erase log' = erase log ++ fst (fin_spec false strs).
+Proof.
+  unfold final_eval, fin_spec. destruct strs as [|s strs].
+  - exists log, thr, room, ign. simpl. rewrite app_nil_r. auto.
+  - set (fr := final (s :: strs)).
+    eexists _, _, _, _. split.
+    + unfold res_of. cbn [snd andb]. destruct (fr_res fr) as [v|o]; reflexivity.
+    + destruct (fr_call fr) as [[[pl c] a]|]; simpl.
+      * rewrite erase_app. reflexivity.
+      * rewrite app_nil_r. reflexivity.
 Qed.
 
 Lemma spec_list_str d s r :
@@ -86,7 +109,7 @@ Qed.
 
 Lemma spec_list_sub d sub r :
   spec_list d (ASub sub :: r) =
-  match finish (S d) sub (spec_list (S d) sub) with
+  match finish true (S d) sub (spec_list (S d) sub) with
   | (lg1, SStop o) => (lg1, inl o)
   | (lg1, SVal v) =>
       (lg1 ++ fst (spec_list d r),
@@ -94,14 +117,14 @@ Lemma spec_list_sub d sub r :
   end.
 Proof.
   unfold Model.spec_list. simpl.
-  match goal with |- context [Model.finish final K (S d) sub ?x] => destruct (Model.finish final K (S d) sub x) as [lg1 [v|o]] end;
+  match goal with |- context [Model.finish final K true (S d) sub ?x] => destruct (Model.finish final K true (S d) sub x) as [lg1 [v|o]] end;
     [|reflexivity].
   destruct (spec_list_with _ r) as [lg [o|strs]]; reflexivity.
 Qed.
 
 Lemma eval_args_skip done s r d stack log thr room :
-  eval_args (MState (Frame done (AStr s :: r) d :: stack) log thr room) =
-  eval_args (MState (Frame (done ++ [s]) r d :: stack) log thr room).
+  eval_args (MState (Frame done (AStr s :: r) d :: stack) log thr room false) =
+  eval_args (MState (Frame (done ++ [s]) r d :: stack) log thr room false).
 Proof. reflexivity. Qed.
 
 Lemma frame_run n :
@@ -112,10 +135,10 @@ Lemma frame_run n :
       1 <= k /\ k <= 2 * subs rest + 1 /\
       erase log' = erase log ++ fst (spec_list d rest) /\
       room - subs rest <= room' /\ room' <= k_budget K /\
-      runm k (Running (MState (Frame done rest d :: stack) log thr room)) =
+      runm k (Running (MState (Frame done rest d :: stack) log thr room false)) =
         match snd (spec_list d rest) with
         | inl o => Done log' o
-        | inr strs => final_eval (done ++ strs) stack log' thr' room'
+        | inr strs => final_eval (done ++ strs) stack log' thr' room' false
         end.
 Proof.
   induction n as [|n IHn]; [intros rest H; lia|].
@@ -136,8 +159,8 @@ Proof.
     + (* a bracket: spawn a child proxy *)
       rewrite subs_sub in *.
       rewrite spec_list_sub.
-      assert (Hstep : forall k, runm (S k) (Running (MState (Frame done (ASub sub :: r) d :: stack) log thr room)) =
-                     runm k (construct K (Frame done (ASub sub :: r) d :: stack) log thr room sub (S d))) by reflexivity.
+      assert (Hstep : forall k, runm (S k) (Running (MState (Frame done (ASub sub :: r) d :: stack) log thr room false)) =
+                     runm k (construct K (Frame done (ASub sub :: r) d :: stack) log thr room false sub (S d))) by reflexivity.
       unfold construct in Hstep.
       destruct (too_deep K (S d)) eqn:Hdeep.
       { exists 1, log, thr, room. unfold Model.finish. rewrite Hdeep. simpl fst; simpl snd.
@@ -154,23 +177,23 @@ Proof.
         as (k1 & log1 & thr1 & room1 & Hk1a & Hk1b & Hlog1 & Hr1a & Hr1b & Hrun1).
       destruct (spec_list (S d) sub) as [lg [o|strs]] eqn:Hsp; simpl fst in *; simpl snd in *.
       * (* the child's evaluation stopped *)
-        rewrite (finish_inl _ _ _ _ Hdeep Hne).
+        rewrite (finish_inl _ _ _ _ _ Hdeep Hne).
         exists (S k1), log1, thr1, room1. simpl fst; simpl snd.
         repeat split; try lia; try assumption.
         rewrite Hstep. exact Hrun1.
       * (* the child's arguments are all strings: its finalEval *)
-        rewrite (finish_inr _ _ _ _ Hdeep Hne).
+        rewrite (finish_inr _ _ _ _ _ Hdeep Hne).
         simpl app in Hrun1. cbv iota beta in Hrun1.
-        destruct (final_eval_spec strs (parent :: stack) log1 thr1 room1 Hr1b)
+        destruct (final_eval_spec strs parent stack log1 thr1 room1 Hr1b)
           as (log2 & thr2 & room2 & Hfe & Hlog2 & Hr2a & Hr2b).
         rewrite Hfe in Hrun1.
-        destruct (snd (fin_spec strs)) as [v|o] eqn:Hres.
+        destruct (snd (fin_spec true strs)) as [v|o] eqn:Hres.
         -- (* reply / noReply: the parent resumes *)
            simpl in Hrun1.
            set (rest' := match v with Some s => AStr s :: r | None => r end).
            assert (Hsr : subs rest' = subs r) by (unfold rest'; destruct v; reflexivity).
-           assert (Hrun1' : runm k1 (Running (MState (Frame [] sub (S d) :: parent :: stack) log thr room0)) =
-                            Running (MState (Frame done rest' d :: stack) log2 thr2 room2)).
+           assert (Hrun1' : runm k1 (Running (MState (Frame [] sub (S d) :: parent :: stack) log thr room0 false)) =
+                            Running (MState (Frame done rest' d :: stack) log2 thr2 room2 false)).
            { rewrite Hrun1. unfold rest'. destruct v; reflexivity. }
            destruct (IHn rest' ltac:(lia) done d stack log2 thr2 room2 ltac:(lia) Hr2b)
              as (k2 & log3 & thr3 & room3 & Hk2a & Hk2b & Hlog3 & Hr3a & Hr3b & Hrun2).
@@ -216,11 +239,11 @@ Proof.
   rewrite runm_add. rewrite Hrun. clear Hrun.
   change (erase [] ++ fst (spec_list 0 tokens)) with (fst (spec_list 0 tokens)) in Hlog1.
   destruct (spec_list 0 tokens) as [lg [o|strs]] eqn:Hsp; cbv beta iota; simpl fst in *; simpl snd in *.
-  - rewrite (finish_inl _ _ _ _ Hd0 Hne). rewrite runm_done. exists log1. split; [reflexivity|exact Hlog1].
-  - rewrite (finish_inr _ _ _ _ Hd0 Hne).
-    destruct (final_eval_spec strs [] log1 thr1 room1 Hr2) as (log2 & thr2 & room2 & Hfe & Hlog2 & _ & _).
+  - rewrite (finish_inl _ _ _ _ _ Hd0 Hne). rewrite runm_done. exists log1. split; [reflexivity|exact Hlog1].
+  - rewrite (finish_inr _ _ _ _ _ Hd0 Hne).
+    destruct (final_eval_root strs log1 thr1 room1 false) as (log2 & thr2 & room2 & ign2 & Hfe & Hlog2).
     change ([] ++ strs) with strs. rewrite Hfe. exists log2.
-    destruct (snd (fin_spec strs)) as [[s|]|o]; simpl; rewrite runm_done; (split; [reflexivity|]);
+    destruct (snd (fin_spec false strs)) as [[s|]|o]; simpl; rewrite runm_done; (split; [reflexivity|]);
       rewrite Hlog2, Hlog1; reflexivity.
 Qed.
 End Refine.
